@@ -17,7 +17,11 @@ CLAIMED = {
     "C14": {
         "text": ("Theorems C14_total / C14_str_total / C14_params_total (Coq, no axioms): for every string, separator "
                  "setting and escape mode the parser model ends in a segment list or a YAMLPathException value, never "
-                 "a Python crash; termination is structural recursion over the text.  The model is a literal "
+                 "a Python crash; termination is structural recursion over the text.  "
+                 "C14_collector_segments_have_terms / C14_segments_paired (an invariant over the rule chain relating "
+                 "the demarcation stack to collector_level and segment_type, after the repair of F30): every ACCEPTED "
+                 "text consists of typed segments whose COLLECTOR / KEYWORD_SEARCH / SEARCH types carry collector / "
+                 "keyword / search terms - the shapes the evaluator has handlers for.  The model is a literal "
                  "rule-list transcription of the if/elif chain of YAMLPath._parse_path, tied to /repo on every run by "
                  "a differential check of the extracted model against the real parser (all strings up to length 4 "
                  "over the 27 significant characters, plus random) and by tables regenerated from the source."),
@@ -179,8 +183,10 @@ CLAIMED = {
                  "segments in either notation and is a fixed point (guards: wfc, and the property's own exclusion "
                  "of dot texts that begin with '/'); == iff equal segments (guard no_dot_key = listed finding F23, "
                  "with _refuted witness); append-then-pop restores the path for tails written after a separator "
-                 "(other tails are judged on the real code only).  Guard wf contains the listed finding F21 "
-                 "(quote-wrapped search terms, _refuted witness).  Side conditions over the regenerated "
+                 "(other tails are judged on the real code only).  The parser half of finding F21 (an escaped or "
+                 "regex search term that starts and ends with the same quote was stripped of them) is repaired and "
+                 "no finding is left inside guard wf (C08_parse_render_F21); its printer half (str() does not escape "
+                 "quotes in a term) stays a listed finding inside guard wfc (C08_canon_F21_refuted).  Side conditions over the regenerated "
                  "character tables are closed by vm_compute, so editing an escape list in the source re-opens a "
                  "proof obligation.  Tie: all segment sequences of length <= 2 (quick) / 3 (thorough) over a "
                  "grammar of every kind, rendered by the reference writer and by str()."),
@@ -288,7 +294,7 @@ CLAIMED = {
         "technique": "Coq proof (fuel sufficiency; loop invariant over common anchor names) + differential correspondence + dump/reload judge",
     },
     "C15": {
-        "text": ("13 theorems (Coq, no axioms) over the evaluator model with the keyword model plugged in "
+        "text": ("18 theorems (Coq, no axioms) over the evaluator model with the keyword model plugged in "
                  "(EvalKw.v): for every document, every prepared path of the fragment INCLUDING keyword-search "
                  "segments at any position, and all answering oracles, the stream of a required query, of exists() "
                  "and of an optional query ends normally or with a YAMLPathException (optional: or at the node "
@@ -299,8 +305,13 @@ CLAIMED = {
                  "collectors: the same under the computable guard kc_fragment (leading collector chain whose "
                  "operands select scalars - the property's own restriction), with C15_collector_nonscalar_refuted; "
                  "text glued to a collector ('(a)b', the former finding F25) parses like '(a).b' since the "
-                 "repair and is inside the guard; C15_bracket_collector_refuted: '[(a)]' and '(][max(())]' still "
-                 "reach NotImplementedError (listed finding F30).  Tie: exhaustive small documents x paths "
+                 "repair and is inside the guard; brackets / parentheses that close each other and collectors "
+                 "opened inside a [...] segment ('[(a)]', '(][max(())]', the former finding F30) are refused by the "
+                 "repaired parser (C15_bracket_collector_refused); for paths prepared from a TEXT the fragment's "
+                 "type/attribute pairing demands are theorems now (C15_prepared_in_fragment[_kw], from the parser "
+                 "invariant C14_segments_paired) and C15_*_only_ype_text state the property for every text without a "
+                 "collector segment whose keyword parameter texts split (that demand is NOT a parser guarantee: "
+                 "'[max(\\')]' ends in ValueError, listed finding F31, C15_kw_params_refuted).  Tie: exhaustive small documents x paths "
                  "with indexes / slice bounds negative, in range, out of range, all search forms, keyword "
                  "segments at every position, scalar collectors; required / optional / exists()."),
         "design_ref": "DESIGN.md section 4 (C15), docs/C15.md",
